@@ -267,6 +267,10 @@ func c01Exec(c fw.Case) *fw.Result {
 			o.Plain = true
 		case 2:
 			o = pbfw.GenOpts{MinBlocks: 20, MaxBlocks: 40, MaxGroups: 1, MaxElems: 4}
+		case 3:
+			// blocks shaped like real extracts: thousands of elements per group, so that the
+			// decoder's preallocated 8000-slot queue and its inflate buffer grow and are reused
+			o = pbfw.GenOpts{MinBlocks: 2, MaxBlocks: 4, MaxGroups: 2, MaxElems: 9000, SmallStrings: true}
 		}
 		f := pbfw.GenFile(r, o)
 		if c.Int("noheader") == 1 {
@@ -365,11 +369,18 @@ func c01Cases(tier string, seed uint64) []fw.Case {
 			for k := 0; k < np; k++ {
 				procs := procsList[(i+k)%len(procsList)]
 				cs = append(cs, fw.Case{Kind: "random", Variant: v, Seed: gen.Sub(seed, "c01r", i),
-					P: map[string]int64{"procs": procs, "chunk": chunk, "profile": int64(i % 5 % 3), "noheader": int64(b2i(i%11 == 10))}})
+					P: map[string]int64{"procs": procs, "chunk": chunk, "profile": c01Profile(i), "noheader": int64(b2i(i%11 == 10))}})
 			}
 		}
 	}
 	return fw.Number(cs)
+}
+
+func c01Profile(i int) int64 {
+	if i%40 == 17 {
+		return 3 // a few real-extract-sized files
+	}
+	return int64(i % 5 % 3)
 }
 
 func b2i(b bool) int {
@@ -384,7 +395,7 @@ func init() {
 		ID:    "C01",
 		Level: "exploration",
 		Rule: "files written by the independent PBF writer: (a) systematic present/absent toggles of each of 33 optional parts between consecutive blocks on the same decoder, consecutive groups of a block and consecutive elements of a group, each header field alone and all-but-it; " +
-			"(b) PRNG files of 1-40 blocks, 1-4 groups, 0-40 elements, arbitrary UTF-8, granularity/offset/date-granularity classes, raw and zlib, shuffled field order and string table, unknown fields; decoder counts {1,2,5,16}, chunked readers; both zlib back-ends (cgo/czlib and pure Go). " +
+			"(b) PRNG files of 1-40 blocks, 1-4 groups, 0-40 elements (plus a few files with up to 9000 elements per group, the size class of real extracts), arbitrary UTF-8, granularity/offset/date-granularity classes, raw and zlib, shuffled field order and string table, unknown fields; decoder counts {1,2,5,16}, chunked readers; both zlib back-ends (cgo/czlib and pure Go). " +
 			"A signature is the presence-bit/parameter-class vector of a block with >=1 element, or the toggled part and level; distinct_nontrivial counts distinct signatures.",
 		Assumptions: []string{
 			"an absent timestamp may be delivered as Go's zero time or as the Unix epoch (both are zero metadata); generated present timestamps are never 0",
